@@ -50,7 +50,35 @@ THEOREMS = [
     'Sbepp.Spec.Group.entryAddr_end',
     'Sbepp.Spec.Group.startsIter_eq_starts',
     'Sbepp.Spec.Group.endIter_eq_nestedSize',
-]
+    # laws of the one-line members whose hand definitions came with the translator tie
+    'Sbepp.Properties.C12.size_spec',
+    'Sbepp.Properties.C12.empty_spec',
+    'Sbepp.Properties.C12.front_back_require_nonempty',
+    'Sbepp.Properties.C12.nested_front_spec',
+    # the same statements for the member functions translated from sbepp.hpp (extract/methods_group.py) ...
+    'Sbepp.Properties.C12.begin_spec_extracted',
+    'Sbepp.Properties.C12.end_spec_extracted',
+    'Sbepp.Properties.C12.begin_plus_size_eq_end_partial_extracted',
+    'Sbepp.Properties.C12.entry_address_subscript_extracted',
+    'Sbepp.Properties.C12.entry_address_front_extracted',
+    'Sbepp.Properties.C12.entry_address_back_extracted',
+    'Sbepp.Properties.C12.entry_address_iteration_extracted',
+    'Sbepp.Properties.C12.size_empty_extracted',
+    'Sbepp.Properties.C12.front_back_require_nonempty_extracted',
+    'Sbepp.Properties.C12.nested_front_extracted',
+    'Sbepp.Properties.C12.forward_entry_chain_extracted',
+    'Sbepp.Properties.C12.nested_size_bytes_spec_extracted',
+    'Sbepp.Properties.C12.resize_writes_only_numInGroup_extracted',
+    'Sbepp.Properties.C12.clear_writes_only_numInGroup_extracted',
+    'Sbepp.Lemmas.GroupTie.walk_fold_fusion',
+] + ['Sbepp.Lemmas.GroupTie.%s.%s_tie' % (_c, _m)       # ... and the tie: translated member function = hand model
+     for _c, _ms in (('Flat', ('get_header', 'size_bytes', 'sbe_size', 'size', 'empty', 'begin', 'end', 'subscript', 'front',
+                               'back', 'resize', 'clear')),
+                     ('Nested', ('get_header', 'sbe_size', 'size', 'empty', 'begin', 'end', 'front', 'resize', 'clear',
+                                 'size_bytes')),
+                     ('Fwd', ('ctor', 'deref', 'inc', 'eq', 'ne')),
+                     ('Ra', ('ctor', 'deref')))
+     for _m in _ms]
 
 FLAT_MODULE = 'Sbepp.Properties.C05Flat'
 FLAT_THEOREMS = [
@@ -652,6 +680,11 @@ def run(chk):
     correspond(chk, configs_for(chk.tier))
     if chk.extra.get('group_extraction_failed') and not chk.violations:
         chk.report_unproved('extraction', chk.extra['group_extraction_failed'])
+    mfail = {k: v for k, v in (((chk.extract_report or {}).get('parts', {}).get('methods_group') or {}).get('failed') or {}).items()
+             if k.split('::')[0] in ('SBEPP_SIZE_CHECK', 'model-I', 'flat_group_base', 'nested_group_base', 'forward_iterator',
+                                     'random_access_iterator')}
+    if mfail and not chk.violations:
+        chk.report_unproved('extraction', {'extractor': 'methods_group', 'failed': mfail})
     if chk.failed_obligations and not chk.violations:
         chk.report_unproved('theorem', chk.failed_obligations)
     chk.assumptions += [
